@@ -58,6 +58,7 @@ def check(ctx):
     ctx.rule("R3", "in-memory counters move together: append grows buffer and _len on the same paths; every filtered command in the flusher is accounted by skip(1); flush snapshots the buffer before resetting it", floor=5)
     ctx.rule("R4", "FIFO ticket protocol: every queue.append(self) is followed on every normal path by wait_for(front) .. popleft() .. notify_all() under the condition; the front test compares with queue[0]", floor=6)
     ctx.rule("R6", "a read is served from the in-memory tail or from the file opened under the reader's own ticket; per-history state it is served from otherwise (a read cache) is dropped by every method that rewrites the history file", floor=3)
+    ctx.rule("R7", "SQLite backend: a command is left out as a repeat only when its recorded text equals the recorded text of the previous entry - the comparison, the stored text and the remembered text are one expression", floor=3)
     ctx.rule("R5", "one history entry per executed command: every exit of BaseShell.default after run_compiled_code passes _append_history exactly once", floor=2)
 
     lj = ctx.repo.module(LJ)
@@ -315,6 +316,46 @@ def check(ctx):
     ctx.ob("R5", f"{BS}:BaseShell._append_history", "appends exactly one entry to the history backend", ok, key="append_history|count")
 
     _read_provenance(ctx)
+    _sqlite_dedup(ctx)
+
+
+def _sqlite_dedup(ctx):
+    from ..engine import dtable as _dt
+
+    SQL = "xonsh/history/sqlite.py"
+    sm = ctx.repo.module(SQL)
+    fn = flat(ctx, sm.func("SqliteHistory.append"), 1, skip=("xh_sqlite_append_history", "is_ignored"))
+    st = f"{SQL}:SqliteHistory.append"
+    ps = [p_ for p_ in _dt.paths(fn, stores=True, loops="skip") if _dt.feasible(p_)]
+    # the recorded text: what goes into the in-memory list of inputs on the keeping paths
+    rec = set()
+    remembered = set()
+    compared = set()
+    last_attr_name = None
+    for p_ in ps:
+        for e in p_.effects:
+            c = e.value if isinstance(e, ast.Expr) else e
+            if isinstance(c, ast.Call) and isinstance(c.func, ast.Attribute) and c.func.attr == "append" and unparse(c.func.value) == "self.inps" and c.args:
+                rec.add(unparse(c.args[0]))
+            if isinstance(e, ast.Assign) and len(e.targets) == 1 and isinstance(e.targets[0], ast.Attribute) and unparse(e.targets[0].value) == "self" and "last" in e.targets[0].attr:
+                remembered.add(unparse(e.value))
+                last_attr_name = unparse(e.targets[0])
+    if len(rec) != 1 or last_attr_name is None:
+        raise AnchorMissing(f"{st}: the recorded text (self.inps.append(..)) / the remembered previous text ({sorted(rec)}, {last_attr_name})")
+    R = next(iter(rec))
+    for p_ in ps:
+        for e, pol in p_.conds:
+            if isinstance(e, ast.Compare) and len(e.ops) == 1 and isinstance(e.ops[0], (ast.Eq, ast.NotEq)):
+                l, r = unparse(e.left), unparse(e.comparators[0])
+                if last_attr_name in (l, r):
+                    compared.add(r if l == last_attr_name else l)
+    if not compared:
+        raise AnchorMissing(f"{st}: the ignoredups comparison with {last_attr_name}")
+    ctx.ob("R7", st, f"the text recorded for a kept command is `{short(ast.parse(R, mode='eval').body, 50)}`", True, key="sqlite-append|recorded-text")
+    for c_ in sorted(compared):
+        ctx.ob("R7", st, f"the repeat test compares the recorded text itself (`{c_[:60]}`) with the previous one", c_ == R, key="sqlite-append|dedup-compares-other-than-recorded-text", where=loc(fn), detail=None if c_ == R else f"recorded: `{R}`; compared: `{c_}` - two different commands can agree on the compared form")
+    for v_ in sorted(remembered):
+        ctx.ob("R7", st, f"`{last_attr_name}` remembers the recorded text (`{v_[:60]}`)", v_ == R, key="sqlite-append|remembers-other-than-recorded-text", where=loc(fn), detail=None if v_ == R else f"recorded: `{R}`; remembered: `{v_}`")
 
 
 def _read_provenance(ctx):
@@ -431,5 +472,5 @@ META = {
     "schedules and value-level len/index consistency are not decided.",
     "note": "Decides the listed structural clauses, not the behaviour. Assumes location fields stay below 10 digits "
     "(fixed-width fields).",
-    "more": "Also decided: every value a read returns is rooted in the in-memory tail or the file opened under the reader's own ticket; a read cache on the history object must be dropped by every method that rewrites a history file.",
+    "more": "Also decided: every value a read returns is rooted in the in-memory tail or the file opened under the reader's own ticket; a read cache on the history object must be dropped by every method that rewrites a history file. SQLite backend: the repeat test, the recorded text and the remembered previous text are one expression.",
 }
